@@ -3,6 +3,8 @@ package props
 import (
 	"fmt"
 	"go/ast"
+	"go/constant"
+	"go/token"
 	"go/types"
 	"strconv"
 	"strings"
@@ -268,6 +270,10 @@ func nameVerbatimSet(c *core.Ctx, o *core.Ob, shortPkg string) (V core.ByteSet, 
 // hexDigitSet: the set of bytes a package's hexDigit accepts, and a check
 // that tryHex consumes exactly '#' + 2 digits.
 func ruleTryHex(c *core.Ctx, o *core.Ob, shortPkg string) {
+	if c.Prog.FuncOpt(shortPkg, "hexDigit") == nil {
+		ruleTryHexDirect(c, o, shortPkg)
+		return
+	}
 	hd := c.Prog.Func(shortPkg, "hexDigit")
 	g := hd.Graph()
 	if hd.Decl.Type.Params == nil || len(hd.Decl.Type.Params.List) != 1 {
@@ -712,4 +718,79 @@ func tableValues(p *core.Program, info *types.Info, e ast.Expr) []int64 {
 		}
 	}
 	return nil
+}
+
+// ruleTryHexDirect: tryHex without a hexDigit helper (the digits are looked
+// up in a table, or tested in place).  For each of the two digit positions the
+// bytes for which a successful return stays reachable are explored with the
+// other position unknown; both sets must be [0-9A-Fa-f].
+func ruleTryHexDirect(c *core.Ctx, o *core.Ob, shortPkg string) {
+	th := c.Prog.Func(shortPkg, "(*scanner).tryHex")
+	g := th.Graph()
+	info := th.Info()
+	want := core.BytesOf("0123456789abcdefABCDEF")
+	o.At(th.Site(th.Decl, "tryHex"))
+	// a local to hang the exploration on (the byte is reached through the alias)
+	var anyLocal types.Object
+	ast.Inspect(th.Decl.Body, func(n ast.Node) bool {
+		if id, ok := n.(*ast.Ident); ok && anyLocal == nil {
+			if v, ok := info.Defs[id].(*types.Var); ok {
+				anyLocal = v
+			}
+		}
+		return anyLocal == nil
+	})
+	for _, pos := range []int64{1, 2} {
+		pos := pos
+		env := &core.ByteEnv{Info: info, Tables: map[types.Object][]int64{}, Prog: c.Prog}
+		env.Alias = func(e ast.Expr) bool {
+			ix, ok := ast.Unparen(e).(*ast.IndexExpr)
+			if !ok {
+				return false
+			}
+			k, isK := core.IntConst(info, ix.Index)
+			_, isID := ast.Unparen(ix.X).(*ast.Ident)
+			return isK && isID && k == pos
+		}
+		env.Var = types.NewVar(token.NoPos, th.Pkg.Types, "digit", types.Typ[types.Uint8])
+		acc := env.ReachSet(g, []*core.V{g.Entry}, func(v *core.V) bool {
+			r, ok := v.AST.(*ast.ReturnStmt)
+			if !ok || len(r.Results) != 2 {
+				return false
+			}
+			cv := core.ConstOf(info, r.Results[1])
+			return cv != nil && cv.Kind() == constant.Bool && constant.BoolVal(cv)
+		}, nil)
+		o.Count(256)
+		if !acc.Equal(want) {
+			o.Fail("%s accepts %s as hex digit %d after '#', want exactly [0-9A-Fa-f]", th.Key, acc.String(), pos)
+		}
+	}
+	peek3, adv3 := false, false
+	ast.Inspect(th.Decl, func(n ast.Node) bool {
+		switch x := n.(type) {
+		case *ast.CallExpr:
+			k := core.CalleeKey(info, x)
+			if strings.HasSuffix(k, ".PeekN") && len(x.Args) == 1 {
+				if v, ok := core.IntConst(info, x.Args[0]); ok && v == 3 {
+					peek3 = true
+				}
+			}
+			if strings.HasSuffix(k, ".SkipN") && len(x.Args) == 1 {
+				if v, ok := core.IntConst(info, x.Args[0]); ok && v == 3 {
+					adv3 = true
+				}
+			}
+		case *ast.AssignStmt:
+			if x.Tok == token.ADD_ASSIGN && len(x.Rhs) == 1 {
+				if v, ok := core.IntConst(info, x.Rhs[0]); ok && v == 3 {
+					adv3 = true
+				}
+			}
+		}
+		return true
+	})
+	o.Require(peek3, "%s does not peek at exactly 3 bytes ('#' + two digits)", th.Key)
+	o.Require(adv3, "%s does not consume exactly 3 bytes on success", th.Key)
+	_ = anyLocal
 }
